@@ -72,6 +72,11 @@ func fillTemplate(tmpl string, model map[string]string, defaults map[string]stri
 
 // RunHarness runs a harness source as an in-package test of pkg through `go test -overlay`.
 func RunHarness(src, pkg string, timeout time.Duration) (string, error) {
+	return RunHarnessWith(src, pkg, timeout, nil)
+}
+
+// RunHarnessWith additionally replaces repository files by the given contents (must-fail mutants).
+func RunHarnessWith(src, pkg string, timeout time.Duration, extra map[string][]byte) (string, error) {
 	dir, err := os.MkdirTemp("", "govc-replay-")
 	if err != nil {
 		return "", err
@@ -82,7 +87,17 @@ func RunHarness(src, pkg string, timeout time.Duration) (string, error) {
 		return "", err
 	}
 	target := filepath.Join(RepoDir, pkg, "zz_verif_replay_test.go")
-	ov, _ := json.Marshal(map[string]interface{}{"Replace": map[string]string{target: testFile}})
+	repl := map[string]string{target: testFile}
+	n := 0
+	for path, content := range extra {
+		n++
+		f := filepath.Join(dir, fmt.Sprintf("mutant%d.go", n))
+		if err := os.WriteFile(f, content, 0o644); err != nil {
+			return "", err
+		}
+		repl[path] = f
+	}
+	ov, _ := json.Marshal(map[string]interface{}{"Replace": repl})
 	ovFile := filepath.Join(dir, "overlay.json")
 	os.WriteFile(ovFile, ov, 0o644)
 	ctx, cancel := context.WithTimeout(context.Background(), timeout)
